@@ -12,6 +12,8 @@ RULE = ("models = behaviours of spec/Pep.tla built with the real DSL; at every s
 
 def select(t, c):
     step, prop, name, detail = c
+    if prop == "ALL":
+        return None
     if prop != "C05":
         return None
     o = t["solves"][step - 1]
